@@ -54,13 +54,14 @@ pub fn digits<H: HashChain>(type_id: u32, digest: &[u8], out: &mut [u8]) -> Opti
 pub fn ctr_digits<H: HashChain>(
     param_bytes: &[u8],
     ctr: u64,
-    out: &mut [u32; MAX_ALLOWED_HSS_LEVELS],
+    out: &mut [u32],
 ) -> Option<usize> {
     let parameters = CompressedParameterSet::from_slice(param_bytes)
         .ok()?
         .to::<H>()
         .ok()?;
-    *out = CompressedUsedLeafsIndexes::new(ctr).to(&parameters);
+    let indexes = CompressedUsedLeafsIndexes::new(ctr).to(&parameters);
+    out[..parameters.len()].copy_from_slice(&indexes[..parameters.len()]);
     Some(parameters.len())
 }
 
